@@ -991,4 +991,8 @@ def flowpathlengths (e : Ext) (nrows ncols nval outlet : Int) (code fdir cells :
       forEach (fun k => acc e .flowpaths (3 * i + k)) 3 0) nval.toNat 0
   pure 0
 
+/- sub-routines that have their own specification lemma (`Lemmas/C05.lean`): kept opaque to the elaborator so
+that proofs about their callers go through the specification (`unfold` still opens them) -/
+attribute [irreducible] getnxy coord2cell1 neighboursInto downstream1 upstream1 intersectFind
+
 end HydroVerif.C05
